@@ -46,9 +46,11 @@ def spec_verdict(world):
 
 def l0_one(chk, rng):
     world = rel.gen_world(rng)
-    kind = rng.choice(["equal", "mutate", "mutate", "shuffle", "absent-one", "absent-all"])
+    kind = rng.choice(["equal", "mutate", "mutate", "shuffle", "absent-one", "absent-all", "mutate-sections", "mutate-sections", "sections"])
     info = None
-    if kind == "mutate":
+    if kind in ("mutate-sections", "sections"):
+        rel.vary_sections(rng, world)
+    if kind in ("mutate", "mutate-sections"):
         info = rel.mutate_inconsistent(rng, world)
     elif kind == "shuffle":
         for files in world["rel"].values():
